@@ -223,59 +223,7 @@ def run(chk, repo, tier):
         raise AnalysisError('field.insert: no clipping path analysed')
 
     # ---------------------------------------------------------------- C06-d
-    f, paths, _ = analyse(repo, 'field._mul_broadcast')
-    ad, ao, bd, bo = S('a_data'), S('a_offset'), S('b_data'), S('b_offset')
-    sw = {('sym', 'a_data'): bd, ('sym', 'b_data'): ad, ('sym', 'a_offset'): bo, ('sym', 'b_offset'): ao}
-    rets = returns(paths)
-    only_a = [p for p in rets if p.ret.items[0] != ad and p.ret.items[2] == bd]
-    only_b = [p for p in rets if p.ret.items[2] != bd and p.ret.items[0] == ad]
-    ok_a = len(only_a) == 1 and only_a[0].ret.items[1] == bo and \
-        only_a[0].ret.items[0] == nf.app('broadcast_to', ad, nf.attr(bd, 'shape'))
-    ok_b = len(only_b) == 1 and only_b[0].ret.items[3] == ao and \
-        only_b[0].ret.items[2] == nf.app('broadcast_to', bd, nf.attr(ad, 'shape'))
-    chk.ob('C06-d', 'N-twin', f.key, 'scalar a inherits b\'s shape and offset', ok_a, '', f.loc())
-    chk.ob('C06-d', 'N-twin', f.key, 'scalar b inherits a\'s shape and offset', ok_b, '', f.loc())
-    # the two cases are mirror images: the test that makes a "one element" is the test that makes b one
-    def scalar_test(p, who):
-        out = []
-        from ..rules import literals
-        for c, pol in literals(p.conds):
-            if pol and ('sym', who) in nf.value_atoms(c) and not ('sym', 'a_data' if who == 'b_data' else 'b_data') in nf.value_atoms(c):
-                out.append(c)
-        return out
-    ta = scalar_test(only_a[0], 'a_data') if only_a else []
-    tb = scalar_test(only_b[0], 'b_data') if only_b else []
-    mirror = len(ta) == 1 and len(tb) == 1 and nf.subst_value(ta[0], sw) == tb[0]
-    size1 = mirror and ta[0] == nf.app('eq', nf.attr(ad, 'size'), C(1))
-    chk.ob('C06-d', 'N-twin', f.key, 'both operands are recognised as one-element fields by the same test (size == 1)',
-           bool(mirror and size1), f'a: {[fmt(t) for t in ta]}; b: {[fmt(t) for t in tb]}', f.loc())
-    fm = repo.func('field.Field._mul_array')
-    _, paths, _ = analyse(repo, fm)
-    okm, det, nn = True, '', 0
-    for p in returns(paths):
-        if not p.calls('extent.intersection_slices') and not p.calls('extent.intersection_shift'):
-            continue        # the non-overlapping branch
-        nn += 1
-        r = p.ret
-        bc = [e for e in p.calls('field._mul_broadcast')]
-        ex = [e for e in p.calls('extent.array_extent')]
-        sl = [e for e in p.calls('extent.intersection_slices')]
-        sh = [e for e in p.calls('extent.intersection_shift')]
-        if len(bc) != 1 or len(ex) != 2 or len(sl) != 1 or len(sh) != 1:
-            okm, det = False, 'expected _mul_broadcast, two array_extent, intersection_slices and intersection_shift calls'
-            continue
-        B = [nf.index(bc[0].result, C(i)) for i in range(4)]
-        good = ex[0].bound['shape'] == nf.attr(B[0], 'shape') and ex[0].bound['shift'] == B[1] and \
-            ex[1].bound['shape'] == nf.attr(B[2], 'shape') and ex[1].bound['shift'] == B[3] and \
-            sl[0].bound['a'] == ex[0].result and sl[0].bound['b'] == ex[1].result and \
-            sh[0].bound['a'] == ex[0].result and sh[0].bound['b'] == ex[1].result
-        data, off = r.items
-        good = good and off == sh[0].result and \
-            data == nf.index(B[0], nf.index(sl[0].result, C(0))) * nf.index(B[2], nf.index(sl[0].result, C(1)))
-        if not good:
-            okm, det = False, f'product {fmt(data)} at offset {fmt(off)} is not built from the intersection of the broadcast extents'
-    chk.ob('C06-d', 'D-flow', fm.key, 'product = overlapping parts of the broadcast operands at the intersection shift',
-           okm and nn > 0, det, fm.loc())
+    product_rules(chk, repo)
 
     # ---------------------------------------------------------------- C06-e
     f, paths, _ = analyse(repo, 'field._merge')
@@ -326,6 +274,64 @@ def _list_version_of(v, target):
             continue
         return False
     return False
+
+
+def product_rules(chk, repo, clause='C06-d'):
+    """Field products: scalar broadcasting (mirror-image cases) and the overlap product (C06-d; reused by C03, C07)."""
+    f, paths, _ = analyse(repo, 'field._mul_broadcast')
+    ad, ao, bd, bo = S('a_data'), S('a_offset'), S('b_data'), S('b_offset')
+    sw = {('sym', 'a_data'): bd, ('sym', 'b_data'): ad, ('sym', 'a_offset'): bo, ('sym', 'b_offset'): ao}
+    rets = returns(paths)
+    only_a = [p for p in rets if p.ret.items[0] != ad and p.ret.items[2] == bd]
+    only_b = [p for p in rets if p.ret.items[2] != bd and p.ret.items[0] == ad]
+    ok_a = len(only_a) == 1 and only_a[0].ret.items[1] == bo and \
+        only_a[0].ret.items[0] == nf.app('broadcast_to', ad, nf.attr(bd, 'shape'))
+    ok_b = len(only_b) == 1 and only_b[0].ret.items[3] == ao and \
+        only_b[0].ret.items[2] == nf.app('broadcast_to', bd, nf.attr(ad, 'shape'))
+    chk.ob(clause, 'N-twin', f.key, 'scalar a inherits b\'s shape and offset', ok_a, '', f.loc())
+    chk.ob(clause, 'N-twin', f.key, 'scalar b inherits a\'s shape and offset', ok_b, '', f.loc())
+    # the two cases are mirror images: the test that makes a "one element" is the test that makes b one
+    def scalar_test(p, who):
+        out = []
+        from ..rules import literals
+        for c, pol in literals(p.conds):
+            if pol and ('sym', who) in nf.value_atoms(c) and not ('sym', 'a_data' if who == 'b_data' else 'b_data') in nf.value_atoms(c):
+                out.append(c)
+        return out
+    ta = scalar_test(only_a[0], 'a_data') if only_a else []
+    tb = scalar_test(only_b[0], 'b_data') if only_b else []
+    mirror = len(ta) == 1 and len(tb) == 1 and nf.subst_value(ta[0], sw) == tb[0]
+    size1 = mirror and ta[0] == nf.app('eq', nf.attr(ad, 'size'), C(1))
+    chk.ob(clause, 'N-twin', f.key, 'both operands are recognised as one-element fields by the same test (size == 1)',
+           bool(mirror and size1), f'a: {[fmt(t) for t in ta]}; b: {[fmt(t) for t in tb]}', f.loc())
+    fm = repo.func('field.Field._mul_array')
+    _, paths, _ = analyse(repo, fm)
+    okm, det, nn = True, '', 0
+    for p in returns(paths):
+        if not p.calls('extent.intersection_slices') and not p.calls('extent.intersection_shift'):
+            continue        # the non-overlapping branch
+        nn += 1
+        r = p.ret
+        bc = [e for e in p.calls('field._mul_broadcast')]
+        ex = [e for e in p.calls('extent.array_extent')]
+        sl = [e for e in p.calls('extent.intersection_slices')]
+        sh = [e for e in p.calls('extent.intersection_shift')]
+        if len(bc) != 1 or len(ex) != 2 or len(sl) != 1 or len(sh) != 1:
+            okm, det = False, 'expected _mul_broadcast, two array_extent, intersection_slices and intersection_shift calls'
+            continue
+        B = [nf.index(bc[0].result, C(i)) for i in range(4)]
+        good = ex[0].bound['shape'] == nf.attr(B[0], 'shape') and ex[0].bound['shift'] == B[1] and \
+            ex[1].bound['shape'] == nf.attr(B[2], 'shape') and ex[1].bound['shift'] == B[3] and \
+            sl[0].bound['a'] == ex[0].result and sl[0].bound['b'] == ex[1].result and \
+            sh[0].bound['a'] == ex[0].result and sh[0].bound['b'] == ex[1].result
+        data, off = r.items
+        good = good and off == sh[0].result and \
+            data == nf.index(B[0], nf.index(sl[0].result, C(0))) * nf.index(B[2], nf.index(sl[0].result, C(1)))
+        if not good:
+            okm, det = False, f'product {fmt(data)} at offset {fmt(off)} is not built from the intersection of the broadcast extents'
+    chk.ob(clause, 'D-flow', fm.key, 'product = overlapping parts of the broadcast operands at the intersection shift',
+           okm and nn > 0, det, fm.loc())
+
 
 
 def disjoint_rules(chk, repo):
